@@ -25,6 +25,20 @@ mod ffi {
         pub fn wplain(&self, pre: u8, w: &mut DiplomatWrite) { let _ = write!(w, "{}={}", pre, self.n); }
         pub fn wstatic(pre: u8, post: u16, w: &mut DiplomatWrite) -> Option<()> { if pre == 0 { None } else { let _ = write!(w, "{}:{}", pre, post); Some(()) } }
     }
+    // receivers by value: structs and enums (explicit discriminants that coincide with a position only sometimes)
+    pub struct Pt { pub x: i16, pub y: f64, pub z: u8 }
+    pub enum Lv { High = 3, Mid = 1, Low = 0, Top = 7 }
+    pub enum Mx { A, B = 5, C, D = 3 }
+    impl Pt {
+        pub fn sum(self) -> f64 { self.x as f64 + self.y + self.z as f64 }
+        pub fn shift(self, d: i16, l: Lv) -> Pt { Pt { x: self.x + d, y: self.y * 2.0, z: l as u8 } }
+    }
+    impl Lv {
+        pub fn code(self) -> i32 { self as i32 }
+        pub fn next(self) -> Lv { match self { Lv::High => Lv::Mid, Lv::Mid => Lv::Low, Lv::Low => Lv::Top, Lv::Top => Lv::High } }
+        pub fn pick(self, m: Mx) -> Option<Mx> { if self as i32 == 0 { None } else { Some(m) } }
+    }
+    impl Mx { pub fn code(self) -> i32 { self as i32 } }
 }
 '''
 
@@ -33,6 +47,9 @@ DRIVER = r'''
 #include <stdint.h>
 #include <string.h>
 #include "Store.h"
+#include "Pt.h"
+#include "Lv.h"
+#include "Mx.h"
 static void pv32(DiplomatU32View v) { printf("["); for (size_t i = 0; i < v.len; i++) printf("%s%u", i ? "," : "", v.data[i]); printf("]"); }
 static void pv16(DiplomatU16View v) { printf("["); for (size_t i = 0; i < v.len; i++) printf("%s%u", i ? "," : "", (unsigned)v.data[i]); printf("]"); }
 static void ps(DiplomatStringView v) { printf("\"%.*s\"", (int)v.len, v.data); }
@@ -54,6 +71,13 @@ int main(void) {
     printf("\n");
     Store_destroy(s);
   }
+  { Pt p = { -7, 2.5, 9 }; Pt q = Pt_shift(p, 10, Lv_Mid);
+    printf("pt sum=%.3f shift=%d,%.3f,%u\n", Pt_sum(p), (int)q.x, q.y, (unsigned)q.z); }
+  printf("lv consts=%d,%d,%d,%d codes=%d,%d,%d,%d next=%d,%d,%d,%d\n", (int)Lv_High, (int)Lv_Mid, (int)Lv_Low, (int)Lv_Top,
+         Lv_code(Lv_High), Lv_code(Lv_Mid), Lv_code(Lv_Low), Lv_code(Lv_Top), (int)Lv_next(Lv_High), (int)Lv_next(Lv_Mid), (int)Lv_next(Lv_Low), (int)Lv_next(Lv_Top));
+  printf("mx consts=%d,%d,%d,%d codes=%d,%d,%d,%d", (int)Mx_A, (int)Mx_B, (int)Mx_C, (int)Mx_D, Mx_code(Mx_A), Mx_code(Mx_B), Mx_code(Mx_C), Mx_code(Mx_D));
+  { Lv_pick_result r = Lv_pick(Lv_Mid, Mx_C); printf(" pick=%d:%d", (int)r.is_ok, r.is_ok ? (int)r.ok : -1); }
+  { Lv_pick_result r = Lv_pick(Lv_Low, Mx_D); printf(" pick0=%d\n", (int)r.is_ok); }
   return 0;
 }
 '''
@@ -69,6 +93,9 @@ def expected():
         out.append(f"n{n} os={s if odd else 'N'} ods={s if odd else 'N'} osl={l32 if odd else 'N'} osl16={l16 if odd else 'N'} "
                    f"rsl={l32 if odd else 'E%d' % n} sl={l32} ou={n * 7 if odd else 'N'} wopt={'1:9-%d' % n if odd else '0:'} "
                    f"wres={'1:8+%d' % n if odd else '0:E8'} wplain=7={n} wstatic={'1:%d:4660' % n if n else '0:'}")
+    out.append("pt sum=4.500 shift=3,5.000,1")
+    out.append("lv consts=3,1,0,7 codes=3,1,0,7 next=1,0,7,3")
+    out.append("mx consts=0,5,6,3 codes=0,5,6,3 pick=1:6 pick0=0")
     return out
 
 
